@@ -182,3 +182,12 @@ DRIVER_TEXT = (" P8 -- Parser.parse as a driver over the step function (cut by a
                "it never raises, returns True exactly when every token was accepted and nothing is left open, gives `line N: <text "
                "of what was raised>` and a position triple on failure, hands every non-comment token to the step function once and "
                "in order, and collects hash comments stripped.")
+
+
+def shape_selftest_obs(pid, trials=600):
+    """engine guard: the structural string layer agrees with CPython on every definite answer over random shaped strings
+    (pyvc/shape_selftest.py) -- a CHECKER obligation, not a claim about sievelib: a refutation means the layer is unsound"""
+    from pyvc import shape_selftest
+    problems = shape_selftest.run(trials)
+    return [static_ob("%s.ENGINE.structural-string-layer-agrees-with-CPython" % pid, not problems,
+                      "; ".join(problems[:3]), "cpython-differential(%d shaped strings)" % trials)]
